@@ -9,7 +9,7 @@ as received.  Not decided: idempotence / syntax equivalence as string functions.
 import ast
 
 from ..model import dotted, unparse, norm, walk_no_nested
-from ..rulelib import Ctx, nodes_calling, reaching_defs, short
+from ..rulelib import Ctx, nodes_calling, reaching_defs, short, resolve_copies
 
 PARSERS = ('parse_openmetrics', 'parse_carbon')
 
@@ -20,6 +20,61 @@ def _tags_var(m):
     if isinstance(r, ast.Return) and isinstance(r.value, ast.Call) and len(r.value.args) >= 2 and isinstance(r.value.args[1], ast.Name):
       return r.value.args[1].id
   return 'tags'
+
+
+def _pieces_of_tags(e, p):
+  """(iterates all of tags.items(), excludes name) for a comprehension  [<piece> for tag, value in tags.items() if tag != 'name']"""
+  if isinstance(e, (ast.ListComp, ast.GeneratorExp, ast.SetComp)) and len(e.generators) == 1:
+    g_ = e.generators[0]
+    it = g_.iter
+    if isinstance(it, ast.Call) and isinstance(it.func, ast.Attribute) and it.func.attr == 'items' and dotted(it.func.value) == p:
+      excl = any(isinstance(c, ast.Compare) and len(c.ops) == 1 and isinstance(c.ops[0], ast.NotEq) and
+                 "'name'" in unparse(c).replace('"', "'") for i_ in g_.ifs for c in ast.walk(i_))
+      only_name_filter = all(isinstance(i_, ast.Compare) and "'name'" in unparse(i_).replace('"', "'") for i_ in g_.ifs)
+      return only_name_filter, excl
+  return False, False
+
+
+def _sorted_pieces(cx, fm, g, seq, ret, p):
+  """is the sequence handed to ''.join() sorted, and built from every tag but `name`?  -> (ok, name excluded, why not)"""
+  # sorted(<comprehension over tags.items()>)
+  if isinstance(seq, ast.Call) and isinstance(seq.func, ast.Name) and seq.func.id == 'sorted' and seq.args and not seq.keywords:
+    inner = seq.args[0]
+    if isinstance(inner, ast.Name):
+      srcs = [x for x in resolve_copies(fm, inner) if isinstance(x, ast.AST)]
+      inner = srcs[0] if len(srcs) == 1 else inner
+    full, excl = _pieces_of_tags(inner, p)
+    if full:
+      return True, excl, ''
+    return False, False, '`%s` is not built from every entry of the tags' % short(inner)
+  # a local list: filled in one loop over tags.items(), sorted in place on every path before it is joined
+  if isinstance(seq, ast.Name):
+    L = seq.id
+    srcs = [x for x in resolve_copies(fm, seq) if isinstance(x, ast.AST)]
+    if len(srcs) == 1 and isinstance(srcs[0], ast.Call) and isinstance(srcs[0].func, ast.Name) and srcs[0].func.id == 'sorted':
+      return _sorted_pieces(cx, fm, g, srcs[0], ret, p)
+    sorts = [n for n in g.nodes if n.kind == 'stmt' and any(
+      isinstance(c.func, ast.Attribute) and c.func.attr == 'sort' and dotted(c.func.value) == L and not c.keywords and not c.args
+      for c in g.calls(n))]
+    appends = [n for n in g.nodes if n.kind == 'stmt' and any(
+      isinstance(c.func, ast.Attribute) and c.func.attr in ('append', 'extend', 'insert') and dotted(c.func.value) == L for c in g.calls(n))]
+    rn = g.nodes_of(ret)
+    if sorts and rn:
+      sorted_before = rn[0] not in g.reach([g.entry], removed_nodes=set(sorts), normal_only=True)
+      grows_after = any(a in g.reach(g.after(s_), normal_only=True) for s_ in sorts for a in appends)
+      loops = [n for n in g.nodes if n.kind == 'loop' and isinstance(n.owner, ast.For) and isinstance(n.owner.iter, ast.Call) and
+               isinstance(n.owner.iter.func, ast.Attribute) and n.owner.iter.func.attr == 'items' and dotted(n.owner.iter.func.value) == p]
+      in_loop = loops and all(a in g.in_loop_nodes(loops[0].owner) for a in appends)
+      # inside the loop only the `name` entry is skipped
+      excl = bool(loops) and any(isinstance(c, ast.Compare) and "'name'" in unparse(c).replace('"', "'")
+                                 for c in ast.walk(loops[0].owner) if isinstance(c, ast.Compare))
+      other_tests = [t_ for t_ in ast.walk(loops[0].owner) if isinstance(t_, ast.If) and
+                     "'name'" not in unparse(t_.test).replace('"', "'")] if loops else [1]
+      if sorted_before and not grows_after and in_loop and not other_tests and appends:
+        return True, excl, ''
+      return False, False, 'the list `%s` is not (always) sorted after its last append, or is not filled from every tag' % L
+    return False, False, 'the list `%s` is never sorted' % L
+  return False, False, '`%s` is not sorted' % short(seq)
 
 
 def run(check):
@@ -46,35 +101,32 @@ def run(check):
     check.analysed(fm)
     rets = [n for n in walk_no_nested(fm.node, include_self=False) if isinstance(n, ast.Return) and n.value is not None]
     p = fm.params[0] if fm.params else 'tags'
+    gfm = cx.cfg(fm)
     for r in rets:
       v = r.value
-      # every iteration over the tags dict must sit under sorted(...)
-      its = [x for x in ast.walk(v) if isinstance(x, ast.Call) and isinstance(x.func, ast.Attribute) and
-             x.func.attr in ('items', 'keys', 'values') and dotted(x.func.value) == p]
-      its += [g.iter for x in ast.walk(v) if isinstance(x, (ast.ListComp, ast.GeneratorExp)) for g in x.generators
-              if dotted(g.iter) == p]
-      bad = []
-      for it in its:
-        q = it
-        under = False
-        while q is not None and q is not v:
-          q = getattr(q, '_parent', None)
-          if isinstance(q, ast.Call) and isinstance(q.func, ast.Name) and q.func.id == 'sorted':
-            under = True
-        if not under:
-          bad.append(it)
-      if bad or not its:
-        r_o.violate('tag order leaks into the name', fm, r, 'format() iterates the tags (`%s`) without sorting them before they are '
-                    'joined: the result depends on the order in which the tags were written' % (short(bad[0]) if bad else 'no iteration found'))
+      # the tag part of the result is ''.join(<sequence>): the sequence must be sorted, and must hold one ';tag=value' piece
+      # for every entry of the tags mapping except `name`
+      joins = [c for c in ast.walk(v) if isinstance(c, ast.Call) and isinstance(c.func, ast.Attribute) and c.func.attr == 'join' and
+               len(c.args) == 1]
+      verdict = None
+      excl = False
+      for jn in joins:
+        ok_sorted, src, why = _sorted_pieces(cx, fm, gfm, jn.args[0], r, p)
+        if ok_sorted:
+          verdict = 'ok'
+          excl = excl or src
+        else:
+          verdict = verdict or why
+      if verdict == 'ok':
+        r_o.ok('format(): the ";tag=value" pieces are sorted before they are joined', fm.loc(r))
       else:
-        r_o.ok('format(): iteration over tags only under sorted()', fm.loc(r))
+        r_o.violate('tag order leaks into the name', fm, r, 'format() does not sort the tags before they are joined (%s): the result '
+                    'depends on the order in which the tags were written' % (verdict or 'no join of tag pieces found'))
       # name first, and excluded from the sorted part
       first = v
       while isinstance(first, ast.BinOp) and isinstance(first.op, ast.Add):
         first = first.left
       ftxt = unparse(first).replace(' ', '').replace('"', "'")
-      excl = any(isinstance(c, ast.Compare) and "'name'" in unparse(c).replace('"', "'") and isinstance(c.ops[0], ast.NotEq)
-                 for c in ast.walk(v))
       if ftxt.startswith("%s.get('name'" % p) or ftxt == "%s['name']" % p:
         if excl:
           r_o.ok('format(): name first, excluded from the sorted tags', fm.loc(r))
